@@ -171,9 +171,10 @@ CHECKS.append({
              "string (LEN + truncation to capacity), bool, bits, bools (whole DWORDs), bool_element, bool_slice1, struct (dict input, by induction "
              "over template nesting under a computable layout guard)}: target memory after the model's request = ref_write, one executed-write "
              "event, success reply; multi_packet_executes (a Multiple Service Packet executes its embedded requests in order); "
-             "frag_transfer_correct (every fragment accepted, final memory = one store of the whole value); read-after-write for atoms. NOT "
-             "proved (stated in Props/C02.v as what C02_full still lacks): structures with BOOL-array members, BOOL members overlaying a visible "
-             "host, top-level slices of arrays of structures/strings; path resolution and request parsing enter as hypotheses (C09/C03). Those "
+             "frag_transfer_correct (every fragment accepted, final memory = one store of the whole value); read-after-write for atoms; structures with BOOL members overlaying a visible host (bits win, "
+             "as in the code and the reference), DWORD members, top-level slices of arrays of structures/strings, structures given as bytes. NOT "
+             "proved (stated in Props/C02.v as what C02_full still lacks): a BOOL member listed before a visible member covering its byte, hidden "
+             "BOOL members, BYTE/WORD/LWORD members, strings whose LEN/DATA are not at offsets 0/4; path resolution and request parsing enter as hypotheses (C09/C03). Those "
              "are exercised on the implementation by the oracle on every run: real LogixDriver.write against the live target, memory compared "
              "byte for byte with ref_write, every other tag unchanged, one executed write per request, read-back."),
     "note": COMMON_NOTE + " C02: closed under the global context (coqchk: no axioms). REAL rounding enters as a hypothesis.",
@@ -208,7 +209,9 @@ CHECKS.append({
              "the operation list with an invariant relating driver and target state: no_connected_before_fo (every delivered SendUnitData frame "
              "finds its session and the connection id it carries in the target's tables, preceded without TCP reset by a granted RegisterSession "
              "and Forward Open), fo_order (standard Forward Open only after a refused Large one; sizes 4000 / 500 as read by the target's "
-             "parser), library_exceptions_only, close_resets (driver reset, target holds no session or connection), reopen_works. Tie: "
+             "parser), library_exceptions_only, close_resets (driver reset, target holds no session or connection), reopen_works; "
+             "C10_reply_classification (the model's reply-validity predicates equal C13's Model/Reply.v on every byte string) and "
+             "C10_upload_abstraction (any number of connected calls preserves the invariants, so open() with the tag upload is covered). Tie: "
              "correspondence of outcome, driver state, target tables and every socket event between model and real CIPDriver/LogixDriver on "
              "exhaustive short histories x policies x sampled faults against the live target; oracle from the target's tables and log only."),
     "note": COMMON_NOTE + " C10: closed under the global context. Reply validity rules are re-modelled here (no bridging lemma to C13's model); the init_tags=True upload is abstracted to a connected call in the theorems and runs in an oracle-only stage.",
@@ -279,8 +282,9 @@ CHECKS.append({
              "projects with a sound layout, all memory images, fragment policies, connection sizes, single / multi / fragmented plans; the string "
              "layer request_ok is PROVED end to end for whole tags of any type, name[i,j,k].b{n} on atomic / array / struct / string tags and all "
              "BOOL-array forms (C01_tags_hold, C01_single_segment_holds), by symbolic or instance addressing. C01_paths_hold: the same conclusion for structured requests [Program:P.]tag[i..].m[j..]...[.bit][{n}] of any tag "
-             "type and scope under symbolic addressing (three-way walk reference / target / client). NOT proved: the inversion of "
-             "Expect.parse_request (an arbitrary accepted string is the text of a structured request). C01_full is refuted by one witness replayed on the real driver (element count >= 65536 does not fit the UINT "
+             "type and scope (three-way walk reference / target / client); C01_strings_hold: the conclusion for every list of request STRINGS "
+             "passing the computable predicate plain_request (no resolution hypothesis left); the strings outside it are listed with a "
+             "vm_compute Example each (other letter case, > 4300-digit index, 256-char symbolic name, x[i] on a scalar DWORD). C01_full is refuted by one witness replayed on the real driver (element count >= 65536 does not fit the UINT "
              "field; known finding) and proved under that guard given resolution soundness. Tie: byte-for-byte request frames and Tags, model vs "
              "real LogixDriver.read against the live target; oracle: every returned Tag vs ref_read on random projects, both connection sizes, "
              "fragment policies, size sweeps around the connection size, Micro800."),
@@ -299,7 +303,8 @@ CHECKS.append({
              "(visible members with offsets, bit positions, array lengths, nested definitions, hidden hosts removed, LEN/DATA structures as "
              "strings of the DATA capacity), programs, routines and tasks — none missing, duplicated or invented (NoDup + Permutation), with "
              "pagination_independent and template_fragment_independent as lemmas over ANY split, isolate_filter_exact, create_tag_fields, "
-             "member_info_decode, get_data_type_mirrors by strong induction on template nesting, tags_json_serialisable. Tie: the model is fed "
+             "member_info_decode, get_data_type_mirrors by strong induction on template nesting, tags_json_serialisable; C05_history / C05_reupload (a call from ANY "
+             "earlier driver state equals the upload of a fresh driver: what was uploaded before does not matter). Tie: the model is fed "
              "the exact reply frames the real driver received and must emit the same requests and trees; oracle: real open()/get_tag_list "
              "against the live target vs the abstract view, identical across policies, json.dumps succeeds; calibration against the two "
              "real-controller fixtures in the thorough tier."),
